@@ -1232,6 +1232,18 @@ func (e *Env) evalCall(n SCall) Val {
 			}
 			gh := x.heapGet(e.st, "GH_hashed", "(Array Int String)")
 			return Val{T: Select(gh, Term{fmt.Sprintf("(ival %s)", h.T.S), "Int"}), Typ: types.Typ[types.String]}
+		case "hashAlg":
+			// hashAlg(h): the algorithm the hash.Hash h was created for (ghost)
+			h := e.eval(n.Args[0])
+			if h.T.Sort != "Iface" {
+				return e.fail("hashAlg() needs a hash.Hash")
+			}
+			ga := x.heapGet(e.st, "GH_hashalg", "(Array Int String)")
+			T := lookupType(x.L, "digest", "Algorithm")
+			if T == nil {
+				T = types.Typ[types.String]
+			}
+			return Val{T: Select(ga, Term{fmt.Sprintf("(ival %s)", h.T.S), "Int"}), Typ: T}
 		case "digestOf":
 			a := e.eval(n.Args[0])
 			s := e.eval(n.Args[1])
